@@ -113,21 +113,22 @@ def hexValue (cs : List Char) : Nat := cs.foldl (fun acc c => acc * 16 + hexVal 
 
 def lexHexNumber (cls : Cls) (src : List Char) : Found :=
   match src with
-  | '0' :: 'x' :: c :: rest =>
-    if !isAsciiHex c then none else
-    match hexScan cls (c :: rest) with
-    | none => none
-    | some k =>
-      -- `u64::from_str_radix` fails on overflow
-      if hexValue ((c :: rest).take k) < 2 ^ 64 then some (.number 16 none, k + 2) else none
+  | z :: x :: c :: rest =>
+    if z == '0' && x == 'x' && isAsciiHex c then
+      match hexScan cls (c :: rest) with
+      | none => none
+      | some k =>
+        -- `u64::from_str_radix` fails on overflow
+        if hexValue ((c :: rest).take k) < 2 ^ 64 then some (.number 16 none, k + 2) else none
+    else none
   | _ => none
 
 def lexLongDecade (cls : Cls) (src : List Char) : Found :=
   match src with
-  | a :: b :: c :: '0' :: 's' :: rest =>
-    if (a == '1' || a == '2') && isAsciiDigit b && isAsciiDigit c then
+  | a :: b :: c :: d :: e :: rest =>
+    if (a == '1' || a == '2') && isAsciiDigit b && isAsciiDigit c && d == '0' && e == 's' then
       match rest with
-      | d :: _ => if cls.alnum d then none else some (.decade, 5)
+      | f :: _ => if cls.alnum f then none else some (.decade, 5)
       | [] => some (.decade, 5)
     else none
   | _ => none
@@ -174,22 +175,32 @@ def isExp (s : List Char) : Bool :=
 
 def lowerAscii (c : Char) : Char := if 'A' ≤ c && c ≤ 'Z' then Char.ofNat (c.toNat + 32) else c
 
-def parsesF64 (s : List Char) : Bool :=
-  let s := match s with
-    | '+' :: r => r
-    | '-' :: r => r
-    | _ => s
-  let low := s.map lowerAscii
-  if low == "inf".toList || low == "infinity".toList || low == "nan".toList then true else
+/-- `Sign?` -/
+def stripSign (s : List Char) : List Char :=
+  match s with
+  | c :: r => if c == '+' || c == '-' then r else s
+  | [] => []
+
+/-- `'inf' | 'infinity' | 'nan'` (already lower-cased) -/
+def isSpecialFloat (low : List Char) : Bool :=
+  low == ['i', 'n', 'f'] || low == ['i', 'n', 'f', 'i', 'n', 'i', 't', 'y'] || low == ['n', 'a', 'n']
+
+/-- `Number` -/
+def parsesNumber (s : List Char) : Bool :=
   let afterInt := dropDigits s
   let intDigits := s.length - afterInt.length
   match afterInt with
   | [] => intDigits > 0
-  | '.' :: r =>
-    let afterFrac := dropDigits r
-    let fracDigits := r.length - afterFrac.length
-    (intDigits + fracDigits > 0) && (afterFrac == [] || isExp afterFrac)
-  | _ => intDigits > 0 && isExp afterInt
+  | c :: r =>
+    if c == '.' then
+      let afterFrac := dropDigits r
+      let fracDigits := r.length - afterFrac.length
+      (intDigits + fracDigits > 0) && (afterFrac == [] || isExp afterFrac)
+    else intDigits > 0 && isExp afterInt
+
+def parsesF64 (s : List Char) : Bool :=
+  let s := stripSign s
+  if isSpecialFloat (s.map lowerAscii) then true else parsesNumber s
 
 /-- index of the last ASCII digit -/
 def lastDigitIdx (src : List Char) : Option Nat :=
